@@ -20,7 +20,7 @@ PROP = 'C08'
 TIERS = {
     # runs, shuffles per input, valuations per input, wall cap of the batch (s)
     'quick': dict(runs=40000, shuffles=2, valuations=20, wall=300, hashseed_slices=1),
-    'thorough': dict(runs=400000, shuffles=6, valuations=44, wall=2400, hashseed_slices=3),
+    'thorough': dict(runs=200000, shuffles=6, valuations=44, wall=2400, hashseed_slices=3),
 }
 
 ###############################################################################
@@ -67,6 +67,24 @@ def gen_scenario(seed, cfg):
         vals.append(env)
     # python -W error / PYTHONWARNINGS=error around the library call, in some runs
     wmode = 'error' if sim.coin('warnings_error', 0.15) else 'default'
+    # (drawn last, so that every earlier choice of every scenario stays as it was)
+    if kind != 'numexpr' and sim.coin('dual_quantifiers', 0.025):
+        # De Morgan partners side by side: Q x in D: p  and  Q' x in D': not p - the same variable,
+        # the opposite quantifier, the negated body, the same OR ANOTHER domain
+        eg.force_quantifier = sim.pick('dualq', ('forall', 'exists'))
+        try:
+            q1 = eg.quant(1)
+        finally:
+            eg.force_quantifier = None
+        other = 'exists' if q1[1] == 'forall' else 'forall'
+        dom2 = q1[3] if sim.coin('dual_same_domain', 0.4) else eg.num_compound(1)
+        body1, body2 = (q1[4], ('un', 'not', q1[4])) if sim.coin('dual_neg_second', 0.6) else (('un', 'not', q1[4]), q1[4])
+        qa, qb = ('quant', q1[1], q1[2], q1[3], body1), ('quant', other, q1[2], dom2, body2)
+        if sim.coin('dual_swap', 0.5):
+            qa, qb = qb, qa
+        term = gen.sanitize_powers(('bin', sim.pick('dual_op', ('and', 'or', 'iff', 'implies', '=', '!=')), qa, qb))
+        if kind == 'pred' and term[0] == 'lit':
+            kind = 'boolexpr'
     return {'seed': seed, 'kind': kind, 'term': term, 'policies': policies, 'valuations': vals, 'warnings': wmode,
             'digest_gen': sim.digest()}
 
